@@ -167,6 +167,20 @@ Definition job_tick (s : store) (ops : list N) : store * sres * list N :=
   let '(s', r) := create_checkpoint s ops in
   (s', r, match r with RId id _ => [id] | RErr => [] end).
 
+(* all nodes acknowledge the pending checkpoint *)
+Definition job_ack_all (s : store) : store :=
+  match st_pending s with
+  | Some p => mkSt (st_counter s) None (st_done s ++ [(p_id p, p_sp p, p_acks p)])
+  | None => s
+  end.
+Definition job_act (sr : store * list N) (a : N) : store * list N :=
+  let '(s, rounds) := sr in
+  match a with
+  | 0 => let '(s', _, st) := job_tick s [0] in (s', rounds ++ st)
+  | 1 => let '(s', _, st) := job_create_savepoint s [0] in (s', rounds ++ st)
+  | _ => (job_ack_all s, rounds)
+  end.
+
 (* AddOperatorSnapshot (one ack per operator; wrong id or nothing pending: error, no change) *)
 Definition add_ack (s : store) (op cid : N) : store * bool :=
   match st_pending s with
@@ -193,6 +207,9 @@ Inductive sp_case :=
 | SpOutcome (fault published : bool)
    (* fault = the copy of one referenced DKV file into the artifact failed with "not found" (injected);
       published = the savepoint id resolves to a URI after every gated write was released *)
+| SpTicks (acts : list N) (rounds : list N)
+   (* the REAL job under a manual clock: acts 0 = the periodic ticker fires, 1 = a savepoint is requested,
+      2 = the pending checkpoint is acknowledged by every node; rounds = the StartCheckpoint ids every source runner received *)
 | SpStarts (pending_before : bool) (counter_before : N) (starts : list N).
    (* the StartCheckpoint calls a source runner received from the job while the savepoint's checkpoint was taken:
       the periodic tick (when pending_before) followed by the savepoint request *)
@@ -262,6 +279,12 @@ Definition check_sp (c : sp_case) : list N :=
       (* spec: an incomplete savepoint is never published; an accepted request without a fault yields an artifact *)
       (if fault && published then [137] else []) ++
       (if negb fault && negb published then [138] else [])
+  | SpTicks acts rounds =>
+      let expect := snd (fold_left job_act acts (mkSt 0 None [], [])) in
+      (if list_N_eqb rounds expect then [] else [33]) ++
+      (* spec: every StartCheckpoint round has a fresh id >= 1: no round with id 0, none repeated - in particular none
+         while a savepoint's (or any) checkpoint is still pending *)
+      (if existsb (N.eqb 0) rounds || negb (list_N_eqb (nodup N.eq_dec rounds) rounds) then [136] else [])
   | SpStarts pending_before counter_before starts =>
       let s0 := mkSt counter_before None [] in
       let '(s1, _, st1) := if pending_before then job_tick s0 [0] else (s0, RErr, []) in
